@@ -278,7 +278,9 @@ Section CodecProofs.
         destruct (rt_dec_rep _ _ (IH false) _ _ _ _ Er) as (bs & Hs & Hbs & Hlen).
         rewrite Hlen, N2Nat.id, N.eqb_refl, Hs. exists bs. split; [reflexivity|exact Hbs].
       - (* STuple *)
-        destruct c; cbn [decode_c encode_c]; [apply rt_none|].
+        destruct c; cbn [decode_c encode_c].
+        { destruct l as [|a l]; [|apply rt_none]. intros b v rest H. inversion H; subst.
+          exists []. split; reflexivity. }
         eapply rt_dmap; [|reflexivity]. apply rt_dec_all. apply Forall2_map_same.
         eapply Forall_impl; [|exact IH]. intros a Ha. exact (Ha false).
       - (* SBits *)
@@ -322,7 +324,7 @@ Section CodecProofs.
         destruct (Hrt _ _ _ Ed) as (bs & Hs & Hbs). rewrite Hs.
         exists (i :: bs). split; [reflexivity|]. cbn [app]. rewrite Hbs. reflexivity.
       - (* SOpaque *)
-        destruct c; cbn [decode_c encode_c]; [apply rt_none|].
+        cbn [decode_c encode_c].
         apply (ok_opaque _ _ _ P OK). apply Forall2_map_same.
         eapply Forall_impl; [|exact IH]. intros a Ha. exact (Ha false).
       - (* SCut *)
@@ -370,7 +372,10 @@ Section CodecProofs.
         subst n. unfold dmap. rewrite Nat2N.id.
         rewrite (tr_enc_rep _ _ (IH false) _ _ rest H). reflexivity.
       - (* STuple *)
-        destruct c; cbn [decode_c encode_c]; [apply tr_none|].
+        destruct c; cbn [decode_c encode_c].
+        { destruct l as [|a l]; [|apply tr_none]. intros v bs rest H.
+          destruct v as [x|l0|l0|l0|i l0|x|x]; try discriminate.
+          destruct l0; [|discriminate]. inversion H; subst. reflexivity. }
         intros v bs rest H. destruct v as [x|l0|l0|l0|i l0|x|x]; try discriminate.
         unfold dmap.
         assert (T : tr (enc_all (map (encode_c P false) l)) (dec_all (map (decode_c P false) l))).
@@ -425,7 +430,7 @@ Section CodecProofs.
           intros f Hf. exact (Hf false). }
         unfold dmap. rewrite (T _ _ rest Ey). reflexivity.
       - (* SOpaque *)
-        destruct c; cbn [decode_c encode_c]; [apply tr_none|].
+        cbn [decode_c encode_c].
         apply (rev_opaque _ _ _ P REV). apply Forall2_map_same.
         eapply Forall_impl; [|exact IH]. intros a Ha. exact (Ha false).
       - (* SCut *)
@@ -505,7 +510,9 @@ Section CodecProofs.
         revert H. apply dec_le_dmap. apply dec_le_dec_rep. apply IH. assumption.
       - destruct c; cbn [decode_c]; [apply dec_le_none|].
         apply dec_le_dmap. apply dec_le_dec_rep. apply IH. assumption.
-      - destruct c; cbn [decode_c]; [apply dec_le_none|].
+      - destruct c; cbn [decode_c].
+        { match goal with H : Forall2 refines l _ |- _ => destruct H end;
+            [apply dec_le_refl|apply dec_le_none]. }
         apply dec_le_dmap. apply dec_le_dec_all.
         eapply (Forall2_map_rel refines); [|eassumption].
         eapply Forall_impl; [|exact IH]. intros a Ha y Hy. exact (Ha y false Hy).
@@ -535,8 +542,7 @@ Section CodecProofs.
           constructor; [|auto].
         match goal with H : _ /\ _ |- _ => destruct H as [Hn Hf] end. cbn [fst snd].
         split; [f_equal; exact Hn|]. apply Hfs; assumption.
-      - destruct c; cbn [decode_c]; [apply dec_le_none|].
-        apply MONO.
+      - cbn [decode_c]. apply MONO.
         eapply (Forall2_map_rel refines); [|eassumption].
         eapply Forall_impl; [|exact IH]. intros a Ha y Hy. exact (Ha y false Hy).
     Qed.
